@@ -306,8 +306,21 @@ def run(tier, seed):
     except Exception as ex:
         chk.violation('constructor raised %s for a message carrying descriptors' % type(ex).__name__,
                       dict(kind='exception', module='c03', trace=core.traceback_str()))
+    # the same foreign bytes with flag bits set that mean nothing to this implementation (0x4 is
+    # ALLOW_INTERACTIVE_AUTHORIZATION; the others are undefined): ignored, everything else as before
+    flagged = []
+    for j, (st, m2) in enumerate(parse_tr[::3]):
+        raw = bytearray(st['raw'])
+        raw[2] |= (0x4, 0x4, 0x8, 0xf4)[j % 4]
+        try:
+            got = project_parsed(message.parseMessage(bytes(raw), []), m2['body'])
+        except Exception as ex:
+            got = {'type': 0, 'nr': False, 'na': False, 'serial': 0, 'fields': frozenset(), 'bodyT': (),
+                   'body': ('exception', '%s: %s' % (type(ex).__name__, str(ex)[:60]))}
+        flagged.append((dict(st, raw=tuple(raw), rec=got), m2))
     cc = 'CONSTANTS\n MTypes = {1}\n'
     for label, batch, pred in (('constructed', own, 'TraceOwn'), ('parsed', parse_tr, 'TraceParse'),
+                               ('parsed (undefined flag bits set)', flagged, 'TraceParseAny'),
                                ('parsed and serialised again', resent, 'TraceResent')):
         traces = [[({'n': 'Init'}, st)] for st, _ in batch]
         rej, stt = core.validate_traces('MC_Message', OBS, traces, {}, cfg_consts=cc, initpred=pred, nproc=12,
